@@ -155,12 +155,29 @@ def numericModel (via : Nat) (blob : Bytes) : String :=
   | 1 => showM (fun r => showNum r.toView) (Model.decodeTypeNumeric blob)
   | _ => showM (fun v => showView v.toView) (Model.parseJSONB blob)
 
-def numericGen (seed idx size : Nat) : Case :=
+/-- family `numround`: "exactly the nearest double for ordinary values of up to 12 significant digits".  At most
+three base-10000 digit groups (≤ 12 significant digits), and the decimal exponent of the last group swept
+systematically (case index ↦ (group count, weight)): weight − groups + 1 from −20 to +20 groups, i.e. 10^−80 … 10^80,
+so every power of ten a float fast path could be guarded by is hit by many mantissas. -/
+def genRoundNumeric (idx : Nat) : Gen Spec.Numeric := do
+  let n := idx % 3 + 1
+  let e : Int := ((idx / 3 % 41 : Nat) : Int) - 20          -- exponent of the last group, in groups
+  let first ← Gen.range 1 9999
+  let rest ← Gen.listOf (n - 1) (do if ← Gen.prob 1 5 then Gen.genDigit else Gen.below 10000)
+  -- last group non-zero so that the value really has its digits at that exponent
+  let ds := first :: rest
+  let lastFix ← Gen.range 1 9999
+  let ds := if ds.getLast? == some 0 then ds.dropLast ++ [lastFix] else ds
+  let w : Int := e + (n : Int) - 1
+  let dscale := if e < 0 then (4 * e.natAbs) else 0
+  return .fin (← Gen.bool) w dscale ds
+
+def numericGenWith (pick : Nat → Nat → Gen Spec.Numeric) (seed idx size : Nat) : Case :=
   let nb := boundaryNums.length
   let ((n, form), padStr) : (Spec.Numeric × Spec.HeaderForm) × Nat :=
     if idx < 4 * nb then (boundaryNums.getD (idx / 4) default, idx % 4)
     else ((do
-      let n ← if size == 0 then Gen.genSmallNumeric else Gen.genNumeric
+      let n ← pick idx size
       let long ← Gen.prob 1 3
       let ps ← Gen.range 0 3
       return ((n, Spec.formOf n long), ps)).run' (Prng.ofSeed seed idx))
@@ -187,7 +204,14 @@ def numericEval (args : List String) : String :=
   | via :: blob :: _ => numericModel via.toNat! (unhex blob)
   | _ => "bad-args"
 
+def numericGen : Nat → Nat → Nat → Case :=
+  numericGenWith (fun _ size => if size == 0 then Gen.genSmallNumeric else Gen.genNumeric)
+
 def numeric : Family := { name := "numeric", gen := numericGen, eval := numericEval, fixed := 4 * boundaryNums.length }
+
+def numround : Family :=
+  { name := "numround", gen := numericGenWith (fun idx _ => genRoundNumeric idx), eval := numericEval,
+    fixed := 4 * boundaryNums.length }
 
 /-! ### jsonb -/
 
